@@ -1,8 +1,374 @@
+(** C13: a new slide mirrors its layout's placeholders and inherits their geometry.
+    Statements only; every proof is [exact] of a lemma of proofs/Placeholder_proofs.v.
+    All statements are about model/Placeholder.v, generic in the literal tables [c : cfg]
+    and instantiated on the tables regenerated from /repo ([gen_cfg], gen/GenC13.v).
+    [d] ranges over ALL deck states, so every statement holds after any history of
+    operations; C13_history_order speaks about histories explicitly. *)
 From V.lib Require Import Prelude.
 From V.gen Require Import GenC13.
 From V.model Require Import Placeholder.
 From V.proofs Require Import Placeholder_proofs.
+From Coq Require Import Permutation Sorted.
 
+(** ** the translator understood everything; the generated tables are well-formed *)
 Theorem C13_no_unmodelled : n_unmodelled = 0%nat.
 Proof. exact no_unmodelled. Qed.
 Print Assumptions C13_no_unmodelled.
+
+Theorem C13_gen_sane : gen_sane = true.
+Proof. exact gen_sane_ok. Qed.
+Print Assumptions C13_gen_sane.
+
+(** ** _next_ph_name *)
+Theorem C13_name_fresh : forall tbl t id o names nm,
+  next_ph_name tbl t id o names = Ok nm -> ~ In nm names.
+Proof. exact next_ph_name_fresh. Qed.
+Print Assumptions C13_name_fresh.
+
+Theorem C13_name_fuel_sufficient : forall base n names,
+  next_num (S (length names)) base n names <> None.
+Proof. exact next_num_fuel. Qed.
+Print Assumptions C13_name_fuel_sufficient.
+
+Theorem C13_name_total : forall tbl t id o names,
+  has_key t tbl = true -> exists nm, next_ph_name tbl t id o names = Ok nm.
+Proof. exact next_ph_name_total. Qed.
+Print Assumptions C13_name_total.
+
+Theorem C13_name_keyerr_only : forall tbl t id o names e,
+  next_ph_name tbl t id o names = Err e -> e = KeyErr /\ has_key t tbl = false.
+Proof. exact next_ph_name_err. Qed.
+Print Assumptions C13_name_keyerr_only.
+
+Theorem C13_name_least : forall tbl t id o names nm,
+  next_ph_name tbl t id o names = Ok nm ->
+  exists b k, assoc t tbl = Some b /\
+    nm = cand (if N.eqb o orient_vert then vertical_prefix ++ b else b) k /\
+    (id - numpart_offset <= k)%N /\
+    forall j, (id - numpart_offset <= j < k)%N ->
+      In (cand (if N.eqb o orient_vert then vertical_prefix ++ b else b) j) names.
+Proof. exact next_ph_name_shape. Qed.
+Print Assumptions C13_name_least.
+
+Example C13_name_example :
+  next_ph_name basename_slide 1%N 2%N orient_vert
+    [[]; vertical_prefix ++ [84; 105; 116; 108; 101; 32; 49]%N; [84; 105; 116; 108; 101; 32; 49]%N;
+     vertical_prefix ++ [84; 105; 116; 108; 101; 32; 50]%N]
+  = Ok (vertical_prefix ++ [84; 105; 116; 108; 101; 32; 51]%N).
+Proof. vm_compute. reflexivity. Qed.
+
+(** ** mirror: one placeholder per non-latent layout placeholder, same key, same order,
+       nothing else on the slide, names (and ids) unique, no own geometry, txBody by table *)
+Theorem C13_mirror : forall c d l d',
+  add_slide c d l = (d', Ok tt) ->
+  exists L s, nth_error (d_layouts d) l = Some L /\ d_slides d' = d_slides d ++ [s] /\
+    let src := filter (fun x => negb (has_type (c_latent c) x)) (placeholders (l_shapes L)) in
+    map key (phs (sl_shapes s)) = map key (phs src) /\
+    forallb is_ph (sl_shapes s) = true /\
+    length (sl_shapes s) = length src /\
+    NoDup (map s_name (sl_shapes s)) /\ NoDup (map s_id (sl_shapes s)) /\
+    Forall (fun sp => s_off sp = None /\ s_ext sp = None) (sl_shapes s) /\
+    Forall2 (fun lp sp => s_txbody sp = memN (sh_type lp) (c_txbody c)) src (sl_shapes s).
+Proof. exact mirror. Qed.
+Print Assumptions C13_mirror.
+
+(** the exact guard: add_slide succeeds iff the layout exists and every cloneable
+    placeholder type has a base name *)
+Theorem C13_add_slide_ok_iff : forall c d l,
+  (exists d', add_slide c d l = (d', Ok tt)) <->
+  exists L, nth_error (d_layouts d) l = Some L /\
+    Forall (fun p => has_key (ph_type p) (c_base_slide c) = true) (phs (cloneable c (l_shapes L))).
+Proof. exact add_slide_ok_iff. Qed.
+Print Assumptions C13_add_slide_ok_iff.
+
+Theorem C13_add_slide_total_gen : forall d l L,
+  nth_error (d_layouts d) l = Some L ->
+  Forall (fun p => In (ph_type p) all_ph_types /\ ~ In (ph_type p) py_missing_basename_slide)
+         (phs (cloneable gen_cfg (l_shapes L))) ->
+  exists d', add_slide gen_cfg d l = (d', Ok tt).
+Proof. exact gen_add_slide_total. Qed.
+Print Assumptions C13_add_slide_total_gen.
+
+(** what a failing add_slide does *)
+Theorem C13_add_slide_err : forall c d l d' e,
+  add_slide c d l = (d', Err e) ->
+  (e = IndexErr /\ nth_error (d_layouts d) l = None /\ d' = d) \/
+  (e = KeyErr /\ exists L s pre p post,
+     nth_error (d_layouts d) l = Some L /\
+     d' = set_orphans d (d_orphans d ++ [((N.of_nat (length (d_slides d)) + 1)%N, s)]) /\
+     sl_layout s = l /\
+     phs (cloneable c (l_shapes L)) = pre ++ p :: post /\
+     has_key (ph_type p) (c_base_slide c) = false /\
+     Forall2 (cloned c) pre (sl_shapes s)).
+Proof. exact add_slide_err. Qed.
+Print Assumptions C13_add_slide_err.
+
+Example C13_mirror_example :
+  exists d' s, add_slide gen_cfg ex_deck 0 = (d', Ok tt) /\ d_slides d' = [mk_slide 0 [] None; s] /\
+    map key (phs (sl_shapes s)) = [(1, 0, 0, 0); (2, 1, 1, 1); (7, 1, 0, 0); (2, 4294967295, 0, 2)]%N /\
+    map s_id (sl_shapes s) = [2; 3; 4; 5]%N /\
+    map s_txbody (sl_shapes s) = [true; true; true; true].
+Proof. eexists; eexists. vm_compute. repeat split; reflexivity. Qed.
+
+(** ** inherited geometry *)
+Theorem C13_inherit : forall c d l d',
+  add_slide c d l = (d', Ok tt) ->
+  exists L s, nth_error (d_layouts d) l = Some L /\ d_slides d' = d_slides d ++ [s] /\
+    Forall2 (fun lp sp => forall a,
+               slide_geom c d' s a sp =
+               layout_eff c a (master_tree d l) (first_with_idx (l_shapes L) lp))
+            (cloneable c (l_shapes L)) (sl_shapes s).
+Proof. exact add_slide_inherit. Qed.
+Print Assumptions C13_inherit.
+
+(** which layout placeholder that is: the first one with the idx of the counterpart ... *)
+Theorem C13_first_with_idx : forall Ls lp,
+  In lp Ls -> is_ph lp = true ->
+  exists pre post, Ls = pre ++ first_with_idx Ls lp :: post /\
+    is_ph (first_with_idx Ls lp) = true /\ sh_idx (first_with_idx Ls lp) = sh_idx lp /\
+    forall y, In y pre -> is_ph y = true -> sh_idx y <> sh_idx lp.
+Proof. exact first_with_idx_spec. Qed.
+Print Assumptions C13_first_with_idx.
+
+(** ... hence the counterpart itself when idx values are unique in the layout *)
+Theorem C13_inherit_unique_idx : forall Ls lp,
+  NoDup (map sh_idx (placeholders Ls)) -> In lp Ls -> is_ph lp = true ->
+  first_with_idx Ls lp = lp.
+Proof. exact first_with_idx_unique. Qed.
+Print Assumptions C13_inherit_unique_idx.
+
+Example C13_unique_idx_example :
+  let Ls := [mk_shape 2%N [] (Some (mk_ph (Some 1%N) None None None)) None None true;
+             mk_shape 3%N [] None None None true;
+             mk_shape 4%N [] (Some (mk_ph (Some 2%N) (Some 1%N) None None)) None None true] in
+  NoDup (map sh_idx (placeholders Ls)) /\ Sorted idx_le (placeholders Ls) /\
+  first_with_idx Ls (mk_shape 4%N [] (Some (mk_ph (Some 2%N) (Some 1%N) None None)) None None true)
+  = mk_shape 4%N [] (Some (mk_ph (Some 2%N) (Some 1%N) None None)) None None true.
+Proof.
+  cbn. split; [repeat constructor; cbn; intuition discriminate|].
+  split; [repeat constructor; vm_compute; discriminate | reflexivity].
+Qed.
+
+(** with duplicate idx values the statement (geometry of the counterpart) is refuted *)
+Theorem C13_inherit_dup_idx_refuted :
+  exists d' L s lp sp,
+    add_slide gen_cfg dup_deck 0 = (d', Ok tt) /\ nth_error (d_layouts dup_deck) 0 = Some L /\
+    d_slides d' = [s] /\
+    nth_error (cloneable gen_cfg (l_shapes L)) 1 = Some lp /\ nth_error (sl_shapes s) 1 = Some sp /\
+    clone_of gen_cfg lp sp /\
+    slide_geom gen_cfg d' s ALeft sp = Ok (Some 10%Z) /\
+    layout_eff gen_cfg ALeft (master_tree dup_deck 0) lp = Ok (Some 50%Z).
+Proof. exact inherit_dup_idx_refuted. Qed.
+Print Assumptions C13_inherit_dup_idx_refuted.
+
+(** the layout placeholder's effective value: own, else the master placeholder of the mapped
+    type (first of that type), else None; KeyError exactly when it has no own value and its
+    type has no entry in the map *)
+Theorem C13_layout_eff_own : forall c a M lp v,
+  own a lp = Some v -> layout_eff c a M lp = Ok (Some v).
+Proof. exact layout_eff_own. Qed.
+Print Assumptions C13_layout_eff_own.
+
+Theorem C13_layout_eff_master : forall c a M lp p bt,
+  own a lp = None -> s_ph lp = Some p -> assoc (ph_type p) (c_lmmap c) = Some bt ->
+  layout_eff c a M lp = Ok (match master_get M bt with Some mp => own a mp | None => None end).
+Proof. exact layout_eff_master. Qed.
+Print Assumptions C13_layout_eff_master.
+
+Theorem C13_layout_eff_err : forall c a M lp e,
+  layout_eff c a M lp = Err e ->
+  e = KeyErr /\ own a lp = None /\
+  exists p, s_ph lp = Some p /\ has_key (ph_type p) (c_lmmap c) = false.
+Proof. exact layout_eff_err. Qed.
+Print Assumptions C13_layout_eff_err.
+
+(** live inheritance in any deck state, until set *)
+Theorem C13_inherit_live : forall c a M Ls sp p,
+  s_ph sp = Some p -> own a sp = None ->
+  slide_eff c a M Ls sp =
+  match layout_get Ls (ph_idx p) with Some lp => layout_eff c a M lp | None => Ok None end.
+Proof. exact slide_eff_unset. Qed.
+Print Assumptions C13_inherit_live.
+
+(** after a successful set the shape reports its own value; the dimensions of the other
+    pair are untouched; the partner of the same pair (top for left, ...) becomes an own value
+    too: its previous own value, or 0 when the a:off / a:ext had to be created *)
+Theorem C13_set_own : forall c a v M Ls s s',
+  set_attr a v s = (s', Ok tt) ->
+  slide_eff c a M Ls s' = Ok (Some v) /\ s_ph s' = s_ph s /\ s_name s' = s_name s /\
+  (forall b, same_pair a b = false -> own b s' = own b s) /\
+  (forall b, same_pair a b = true -> b <> a ->
+     own b s' = Some (match own b s with Some x => x | None => 0%Z end)).
+Proof. exact set_own. Qed.
+Print Assumptions C13_set_own.
+
+Theorem C13_set_rejected : forall a v s s' e,
+  set_attr a v s = (s', Err e) ->
+  e = ValueErr /\ coord_ok a v = false /\
+  (forall b, same_pair a b = false -> own b s' = own b s) /\
+  (forall b, same_pair a b = true ->
+     own b s' = Some (match own b s with Some x => x | None => 0%Z end)).
+Proof. exact set_attr_err. Qed.
+Print Assumptions C13_set_rejected.
+
+Example C13_inherit_example :
+  exists d' s, add_slide gen_cfg ex_deck 0 = (d', Ok tt) /\ nth_error (d_slides d') 1 = Some s /\
+    map (fun sp => (slide_geom gen_cfg d' s ALeft sp, slide_geom gen_cfg d' s AWidth sp)) (sl_shapes s) =
+      [(Ok (Some 1), Ok (Some 3)); (Ok (Some 11), Ok (Some 13)); (Ok (Some 11), Ok (Some 13)); (Ok (Some 11), Ok (Some 13))]%Z.
+Proof. eexists; eexists. vm_compute. repeat split; reflexivity. Qed.
+
+Example C13_set_example :
+  let s := mk_shape 2%N [] (Some (mk_ph None None None None)) None None true in
+  fst (set_attr ALeft 5%Z s) = mk_shape 2%N [] (Some (mk_ph None None None None)) (Some (5, 0)%Z) None true /\
+  set_attr AWidth (-1)%Z s = (mk_shape 2%N [] (Some (mk_ph None None None None)) None (Some (0, 0)%Z) true, Err ValueErr).
+Proof. vm_compute. split; reflexivity. Qed.
+
+(** ** the new slide is last, related to the layout; everything else is untouched *)
+Theorem C13_last_and_frame : forall c d l d' r,
+  add_slide c d l = (d', r) ->
+  d_layouts d' = d_layouts d /\ d_masters d' = d_masters d /\ d_notes_master d' = d_notes_master d /\
+  firstn (length (d_slides d)) (d_slides d') = d_slides d /\
+  (forall e, r = Err e -> d_slides d' = d_slides d) /\
+  (r = Ok tt -> d_orphans d' = d_orphans d /\ length (d_slides d') = S (length (d_slides d))).
+Proof. exact add_slide_frame. Qed.
+Print Assumptions C13_last_and_frame.
+
+Theorem C13_new_slide_related : forall c d l d',
+  add_slide c d l = (d', Ok tt) ->
+  exists L s, nth_error (d_layouts d) l = Some L /\
+    d' = set_slides d (d_slides d ++ [s]) /\ sl_layout s = l /\ sl_notes s = None /\
+    Forall2 (clone_of c) (cloneable c (l_shapes L)) (sl_shapes s) /\
+    NoDup (map s_name (sl_shapes s)) /\ NoDup (map s_id (sl_shapes s)).
+Proof. exact add_slide_ok. Qed.
+Print Assumptions C13_new_slide_related.
+
+(** over any history of operations slides are only appended and keep their layout *)
+Theorem C13_history_order : forall c ops d,
+  exists suf, map sl_layout (d_slides (final c d ops)) = map sl_layout (d_slides d) ++ suf /\
+              (length suf <= length ops)%nat.
+Proof. exact history_slides_prefix. Qed.
+Print Assumptions C13_history_order.
+
+Example C13_history_example :
+  map sl_layout (d_slides (final gen_cfg ex_deck
+     [AddSlide 0; Edit (TSlide 1 0) (ESet ATop 9%Z); AddSlide 3; NotesSlide 1; Edit (TLayout 0 0) EDelete; AddSlide 0]))
+  = [0; 0; 0]%nat.
+Proof. vm_compute. reflexivity. Qed.
+
+(** ** notes slides *)
+Theorem C13_notes : forall c d s sl,
+  nth_error (d_slides d) s = Some sl -> sl_notes sl = None ->
+  Forall (fun t => has_key t (c_base_notes c) = true) (c_notes_cloneable c) ->
+  exists nt,
+    notes_slide c d s =
+      (set_slides (ensure_notes_master d)
+         (upd_nth s (fun x => mk_slide (sl_layout x) (sl_shapes x) (Some nt)) (d_slides d)), Ok tt) /\
+    let NM := the_notes_master d in
+    let src := filter (has_type (c_notes_cloneable c)) (placeholders NM) in
+    map key (phs nt) = map key (phs src) /\ forallb is_ph nt = true /\ length nt = length src /\
+    NoDup (map s_name nt) /\ NoDup (map s_id nt) /\
+    Forall2 (fun mp sp => forall a, notes_eff a NM sp = own a (first_with_type NM mp)) src nt.
+Proof. exact notes_mirror. Qed.
+Print Assumptions C13_notes.
+
+(** the premise about the tables holds for the generated ones *)
+Theorem C13_notes_tables_total :
+  Forall (fun t => has_key t (c_base_notes gen_cfg) = true) (c_notes_cloneable gen_cfg).
+Proof. exact gen_notes_total. Qed.
+Print Assumptions C13_notes_tables_total.
+
+Theorem C13_notes_first_with_type : forall NM mp,
+  In mp NM -> is_ph mp = true ->
+  exists pre post, NM = pre ++ first_with_type NM mp :: post /\
+    is_ph (first_with_type NM mp) = true /\ sh_type (first_with_type NM mp) = sh_type mp /\
+    forall y, In y pre -> is_ph y = true -> sh_type y <> sh_type mp.
+Proof. exact first_with_type_spec. Qed.
+Print Assumptions C13_notes_first_with_type.
+
+Theorem C13_notes_unique_type : forall NM mp,
+  NoDup (map sh_type (placeholders NM)) -> In mp NM -> is_ph mp = true ->
+  first_with_type NM mp = mp.
+Proof. exact first_with_type_unique. Qed.
+Print Assumptions C13_notes_unique_type.
+
+Theorem C13_notes_existing : forall c d s sl nt,
+  nth_error (d_slides d) s = Some sl -> sl_notes sl = Some nt -> notes_slide c d s = (d, Ok tt).
+Proof. exact notes_slide_existing. Qed.
+Print Assumptions C13_notes_existing.
+
+(** the other slides are untouched by the update of slide [s] *)
+Theorem C13_notes_frame : forall (f : slide -> slide) l n m, n <> m ->
+  nth_error (upd_nth n f l) m = nth_error l m.
+Proof. exact (@nth_error_upd_nth_other slide). Qed.
+Print Assumptions C13_notes_frame.
+
+Example C13_notes_example :
+  exists d' s nt, notes_slide gen_cfg ex_deck 0 = (d', Ok tt) /\ nth_error (d_slides d') 0 = Some s /\
+    sl_notes s = Some nt /\ d_notes_master d' = Some default_notes_master /\
+    map key (phs nt) = [(101, 2, 0, 0); (2, 3, 0, 2); (13, 5, 0, 2)]%N /\
+    map (notes_eff AWidth default_notes_master) nt = [Some 4572000; Some 5486400; Some 2971800]%Z.
+Proof. do 3 eexists. vm_compute. repeat split; reflexivity. Qed.
+
+(** ** the literal dicts are partial: exactly these enum members have no entry (the python side
+       and the Coq side computed the lists independently), a lookup fails exactly there *)
+Theorem C13_partial_maps_exact :
+  missing basename_slide = py_missing_basename_slide /\
+  missing basename_notes = py_missing_basename_notes /\
+  missing layout_master_map = py_missing_layout_master_map.
+Proof. exact partial_exact. Qed.
+Print Assumptions C13_partial_maps_exact.
+
+Theorem C13_partial_maps : forall (tbl : list (N * str)) t,
+  In t all_ph_types -> (dict_get t tbl = Err KeyErr <-> In t (missing tbl)).
+Proof. exact (@partial_maps str). Qed.
+Print Assumptions C13_partial_maps.
+
+Theorem C13_partial_maps_lm : forall (tbl : list (N * N)) t,
+  In t all_ph_types -> (dict_get t tbl = Err KeyErr <-> In t (missing tbl)).
+Proof. exact (@partial_maps N). Qed.
+Print Assumptions C13_partial_maps_lm.
+
+(** every uncovered, non-latent type refutes the mirror statement (witness: a layout holding
+    one placeholder of that type) ... *)
+Theorem C13_mirror_refuted_when_partial : forall c t,
+  has_key t (c_base_slide c) = false -> memN t (c_latent c) = false ->
+  exists d', add_slide c (wit_deck t) 0 = (d', Err KeyErr) /\
+             d_slides d' = [] /\ length (d_orphans d') = 1%nat.
+Proof. exact mirror_refuted_when_partial. Qed.
+Print Assumptions C13_mirror_refuted_when_partial.
+
+(** ... and every type that can be cloned but is uncovered by the layout-to-master map refutes
+    the inheritance statement *)
+Theorem C13_inherit_refuted_when_partial : forall c t,
+  has_key t (c_lmmap c) = false -> has_key t (c_base_slide c) = true -> memN t (c_latent c) = false ->
+  exists d' s sp, add_slide c (wit_deck t) 0 = (d', Ok tt) /\ d_slides d' = [s] /\ sl_shapes s = [sp] /\
+    forall a, slide_geom c d' s a sp = Err KeyErr.
+Proof. exact inherit_refuted_when_partial. Qed.
+Print Assumptions C13_inherit_refuted_when_partial.
+
+Example C13_partial_example :
+  (exists d', add_slide toy_cfg (wit_deck 2) 0 = (d', Err KeyErr)) /\
+  has_key 2%N (c_base_slide toy_cfg) = false /\ memN 2%N (c_latent toy_cfg) = false.
+Proof. split; [eexists|]; vm_compute; auto. Qed.
+
+Example C13_partial_example_inherit :
+  has_key 3%N (c_lmmap toy_cfg) = false /\ has_key 3%N (c_base_slide toy_cfg) = true /\
+  memN 3%N (c_latent toy_cfg) = false /\
+  (exists d', add_slide toy_cfg (wit_deck 3) 0 = (d', Ok tt)).
+Proof. repeat split; try (vm_compute; reflexivity). eexists. vm_compute. reflexivity. Qed.
+
+(** ** slide.placeholders iterates the placeholders of the tree stably sorted by idx *)
+Theorem C13_placeholders_view : forall t,
+  Permutation (slide_placeholders t) (placeholders t) /\ Sorted idx_le (slide_placeholders t) /\
+  (Sorted idx_le (placeholders t) -> slide_placeholders t = placeholders t).
+Proof. exact placeholders_view. Qed.
+Print Assumptions C13_placeholders_view.
+
+Example C13_placeholders_view_reorders :
+  map s_id (slide_placeholders
+    [mk_shape 2%N [] (Some (mk_ph None (Some 13%N) None None)) None None true;
+     mk_shape 3%N [] (Some (mk_ph None None None None)) None None true;
+     mk_shape 4%N [] None None None true;
+     mk_shape 5%N [] (Some (mk_ph None (Some 13%N) None None)) None None true;
+     mk_shape 6%N [] (Some (mk_ph None (Some 1%N) None None)) None None true]) = [3; 6; 2; 5]%N.
+Proof. vm_compute. reflexivity. Qed.
